@@ -149,6 +149,11 @@ def h_penalty(env, name, n_orbs, utd, mapping=None, canary=False):
     ref = penalty_reference(name, n_orbs, utd, mu, (t + 1 if canary else t))
     if mapping is None:
         check_fermion_action(env, inp, pen.terms, ref, f"{name} penalty (n_orbs={n_orbs}, utd={utd}) = mu ({name} - t)^2 on every determinant")
+        if not canary:
+            # the same penalty requested for the OTHER ordering afterwards, in the same process (nothing carried over between calls)
+            pen_b = fnc(n_orbs, t, mu=mu, up_then_down=not utd)
+            check_fermion_action(env, inp, pen_b.terms, penalty_reference(name, n_orbs, not utd, mu, t),
+                                 f"{name} penalty (n_orbs={n_orbs}, utd={not utd}) requested after the utd={utd} one = mu ({name} - t)^2 on every determinant")
         if name in ("N", "Sz"):
             lams = range(n + 1) if name == "N" else [F(k, 2) for k in range(-n_orbs, n_orbs + 1)]
             for lam in lams:
